@@ -129,6 +129,13 @@ pub fn gen_cfg(rng: &mut Prng, suite: SuiteId, mode: ModeKind, cap: usize) -> Cf
             _ => info = v,
         }
     }
+    if mode.has_psk() && !psk_id.is_empty() && psk_id.len() < 60000 && rng.chance(1, 30) {
+        // an identifier that happens to look like a length-prefixed vector
+        let n = psk_id.len();
+        let mut h = if rng.chance(1, 2) { vec![(n >> 8) as u8, n as u8] } else { vec![n as u8] };
+        h.extend_from_slice(&psk_id);
+        psk_id = h;
+    }
     if mode.has_psk() && psk.len() >= 2 && rng.chance(1, 30) {
         // an id that is a prefix of the key, or a key that is a prefix of the id
         let k = rng.range(1, psk.len() - 1);
@@ -172,10 +179,26 @@ pub fn dh_partner(rng: &mut Prng, kem: KemId, sk: &[u8]) -> Option<Vec<u8>> {
     if kem == KemId::X25519 {
         for _ in 0..96 {
             let mut t = [0u8; 32];
-            match rng.below(7) {
+            match rng.below(8) {
+                7 => {
+                    // one special byte value repeated at the same position of several 32-bit words,
+                    // zero elsewhere (word-wise folds of the result then equal 0x80000000, 1, ...)
+                    let r = rng.below(4) as usize;
+                    let v = *rng.pick(&[0x80u8, 0x80, 0x01, 0xff]);
+                    let mut any = false;
+                    for w in 0..8 {
+                        if rng.chance(1, 3) {
+                            t[4 * w + r] = v;
+                            any = true;
+                        }
+                    }
+                    if !any {
+                        t[r] = v;
+                    }
+                }
                 0 => rng.fill(&mut t[24..]),
                 1 => rng.fill(&mut t[..8]),
-                2 => t[rng.below(32) as usize] = rng.range(1, 255) as u8,
+                2 => t[rng.below(32) as usize] = if rng.chance(1, 2) { *rng.pick(&[0x80u8, 0x01, 0xff, 0x7f, 0x40]) } else { rng.range(1, 255) as u8 },
                 3 => {
                     let k = *rng.pick(&[1usize, 4, 8, 16, 28]);
                     rng.fill(&mut t[k..]);
@@ -436,6 +459,22 @@ fn setup_pair(ev: &mut Vec<Ev>, rng: &mut Prng, c: usize, cfg: &Cfg, s_model: bo
     } else {
         rng_script(rng, kem)
     };
+    let mut ks = ks;
+    if kem.is_nist() && cfg.mode.has_auth() && rng.chance(1, 12) {
+        // the sender's identity key is the *negation* of the ephemeral key this setup will draw
+        // (skS = n - skE: same x-coordinate, so both DH results coincide although the keys differ)
+        let (sk_e, _, _) = refhpke::derive_keypair(kem, &{
+            let mut v = script.0.clone();
+            v.resize(nsk, 0);
+            v
+        });
+        let cv = math::curve(kem);
+        let neg = cv.n.sub(&math::U::from_be(&sk_e)).0.to_be(nsk);
+        if let Some(pk) = refhpke::pk_of(kem, &neg) {
+            ev.push(Ev::KeyRaw { k: 2 * c + 1, kem, sk: b(neg), pk: b(pk) });
+            ks = Some(2 * c + 1);
+        }
+    }
     ev.push(Ev::SetupS { c, cfg: cfg.clone(), kr: 2 * c, ks, ks_pub: None, rng: script.clone(), model_only: s_model });
     ev.push(Ev::SetupR { c, cfg: cfg.clone(), kr: 2 * c, ks, enc: EncSrc::Of(c), model_only: r_model });
     if kem == KemId::X25519 && cfg.mode.has_auth() && ikm_s.is_some() && rng.chance(1, 6) {
@@ -497,7 +536,7 @@ pub fn gen_c01(rng: &mut Prng, run: u64, t: &Tier) -> Vec<Ev> {
     if run == 6 || (t.thorough && run % 50_000 == 78) {
         return single_huge_message(rng, run);
     }
-    if run == 7 || (t.thorough && run % 50_000 == 79) {
+    if t.thorough && run % 50_000 == 79 {
         return huge_alloc_case(rng, run);
     }
     let (suite, mode) = suite_mode_biased(run, rng, &SEAL_AEADS, false);
@@ -643,6 +682,19 @@ pub fn gen_c02(rng: &mut Prng, run: u64, _t: &Tier) -> Vec<Ev> {
             }
         }
     }
+    if seals && rng.chance(1, 2) {
+        // RFC 9180 ContextR.Open uses exactly the receiver's own sequence number: a record sealed one
+        // position ahead (the previous one lost or late) is refused, and the late one still opens
+        for c in 1..3 {
+            for _ in 0..2 {
+                let (pt, aad) = msg(rng, false);
+                ev.push(seal_ev(rng, c, pt, aad));
+            }
+            ev.push(Ev::Deliver { r: c, from: c, rec: RecRef::Ahead(1), fault: Fault::None, api: open_api(rng) });
+            ev.push(Ev::Deliver { r: c, from: c, rec: RecRef::Next, fault: Fault::None, api: open_api(rng) });
+            ev.push(Ev::Deliver { r: c, from: c, rec: RecRef::Next, fault: Fault::None, api: open_api(rng) });
+        }
+    }
     if seals {
         // single-shot forms against the model: a real single-shot seal (its composed twin is compared
         // with refhpke byte for byte), and real single-shot opens of model-produced first messages
@@ -747,6 +799,18 @@ pub fn gen_c03(rng: &mut Prng, run: u64, _t: &Tier) -> Vec<Ev> {
     ev.push(Ev::KemProbe { kem, kr: 0, ks: None, rng: rng_script(rng, kem) });
     ev.push(Ev::KemProbe { kem, kr: 0, ks: Some(1), rng: rng_script(rng, kem) });
     ev.push(Ev::KemProbe { kem, kr: 2, ks: Some(0), rng: rng_script(rng, kem) });
+    if kem.is_nist() && rng.chance(1, 4) {
+        // AuthEncap where the identity private key is the negation of the ephemeral one (n - skE): the
+        // two public keys differ, the two DH x-coordinates coincide
+        let script = rng.rand_bytes(kem.rfc_sizes().2);
+        let (sk_e, _, _) = refhpke::derive_keypair(kem, &script);
+        let cv = math::curve(kem);
+        let neg = cv.n.sub(&math::U::from_be(&sk_e)).0.to_be(sk_e.len());
+        if let Some(pk) = refhpke::pk_of(kem, &neg) {
+            ev.push(Ev::KeyRaw { k: 12, kem, sk: b(neg), pk: b(pk) });
+            ev.push(Ev::KemProbe { kem, kr: 0, ks: Some(12), rng: b(script) });
+        }
+    }
     if kem == KemId::X25519 && rng.chance(1, 4) {
         // AuthEncap / AuthDecap where the ephemeral key pair *is* the identity key pair (the RNG returns
         // its ikm) and the identity public key is held in its other encoding (bit 255 set)
@@ -953,6 +1017,7 @@ fn gen_fault(rng: &mut Prng) -> Fault {
             }
         }
         13 => Fault::ByteSet(*rng.pick(&[Field::Ct, Field::Tag, Field::Aad]), *rng.pick(&[0i32, 1, -1, -2]), *rng.pick(&[0u8, 1, 0x7f, 0x80, 0xff])),
+        14 if rng.chance(1, 2) => Fault::PlaintextAsBody(rng.below(8) as usize, rng.chance(3, 4)),
         _ => Fault::Truncate(rng.below(1 << 16) as usize),
     }
 }
@@ -1228,6 +1293,24 @@ pub fn gen_c06(rng: &mut Prng, run: u64, t: &Tier) -> Vec<Ev> {
         ev.push(Ev::Seal { c: 0, pt, aad, inplace: false });
         ev.push(Ev::TamperSweep { r: 0, from: 0, rec: nrec, api: OpenApi::Alloc, max_bits: 256, only: None });
     }
+    if rng.chance(1, 3) {
+        // a genuine open, then forgeries built from what that open just returned (its plaintext as the
+        // next body, under its tag or the next record's), then the genuine next message
+        setup_pair(&mut ev, rng, 2, &cfg, false, false);
+        for _ in 0..3 {
+            let l = rng.range(1, 40);
+            ev.push(Ev::Seal { c: 2, pt: b(rng.rand_bytes(l)), aad: b(rng.var_bytes(12)), inplace: false });
+        }
+        for i in 0..2usize {
+            let api = open_api(rng);
+            ev.push(Ev::Deliver { r: 2, from: 2, rec: RecRef::Next, fault: Fault::None, api });
+            for with_tag in [true, false] {
+                ev.push(Ev::Deliver { r: 2, from: 2, rec: RecRef::Next, fault: Fault::PlaintextAsBody(i, with_tag), api: open_api(rng) });
+            }
+            ev.push(Ev::Deliver { r: 2, from: 2, rec: RecRef::Back(1), fault: Fault::None, api: open_api(rng) });
+        }
+        ev.push(Ev::Deliver { r: 2, from: 2, rec: RecRef::Next, fault: Fault::None, api: open_api(rng) });
+    }
     // same position in a restarted session with fresh randomness: its records must not splice in
     if rng.chance(1, 3) {
         setup_pair(&mut ev, rng, 1, &cfg, false, false);
@@ -1268,6 +1351,13 @@ fn perturb_bytes(rng: &mut Prng, v: &[u8]) -> Vec<u8> {
                 o.clear();
             }
         }
+        7 if !o.is_empty() && rng.chance(1, 2) => {
+            // the value behind a length header (TLS vector, one-byte length): a different value
+            let n = o.len();
+            let mut h = if rng.chance(1, 2) { vec![(n >> 8) as u8, n as u8] } else { vec![n as u8] };
+            h.extend_from_slice(&o);
+            o = h;
+        }
         _ => {
             // append or prepend a byte that parsers / normalisers tend to treat specially
             let x = *rng.pick(&[0x00u8, 0x20, 0x0a, 0x0d, 0x09, 0x0c, 0xff, 0x80, b'=', b'/']);
@@ -1301,6 +1391,12 @@ pub fn gen_c07(rng: &mut Prng, run: u64, _t: &Tier) -> Vec<Ev> {
         let l = *rng.pick(&[65usize, 100, 129, 200, 1025, 2048, 5000, 8161, 12241, 16321, 20000]);
         cfg.psk = b(rng.rand_bytes(l));
     }
+    let long_info = rng.chance(1, 60);
+    if long_info {
+        // info longer than 65535 bytes; the receiver's differs only in the tail (see below)
+        let l = *rng.pick(&[65536usize, 65537, 65600, 70001]);
+        cfg.info = b(rng.bytes(l));
+    }
     let kem = suite.kem;
     setup_pair(&mut ev, rng, 0, &cfg, false, false);
     ev.push(Ev::Keygen { k: 10, kem, ikm: ikm(rng) }); // another recipient key
@@ -1331,7 +1427,24 @@ pub fn gen_c07(rng: &mut Prng, run: u64, _t: &Tier) -> Vec<Ev> {
     };
     let frame_it = rng.chance(1, 8);
     let (fs, fl) = (rng.chance(3, 4), rng.chance(3, 4));
+    if long_info {
+        choice = 100;
+        let mut v = cfg.info.0.clone();
+        match rng.below(3) {
+            0 => {
+                let l = v.len() - 1;
+                v[l] ^= 1;
+            }
+            1 => v.push(0),
+            _ => {
+                let i = 65535 + rng.below((v.len() - 65535) as u64) as usize;
+                v[i] ^= 0x10;
+            }
+        }
+        c2.info = b(v);
+    }
     match choice {
+        100 => {}
         0 if frame_it => c2.info = b(framed(b"info_hash", &cfg.info, fs, fl)),
         1 if frame_it => c2.psk = b(framed(b"secret", &cfg.psk, fs, fl)),
         2 if frame_it => c2.psk_id = b(framed(b"psk_id_hash", &cfg.psk_id, fs, fl)),
@@ -1554,6 +1667,39 @@ pub fn gen_c09(rng: &mut Prng, run: u64, t: &Tier) -> Vec<Ev> {
     let kind = kinds[(run / 3 % 2) as usize];
     let mut push = |bytes: Vec<u8>, k: Kind| ev.push(Ev::DecodeProbe { suite, kind: k, bytes: b(bytes) });
     let section = (run / 6) % 6;
+    {
+        // in every run: the distinguished valid points (G, -G, 2G, the keys of scalars n-1, n-2), the
+        // encoding with its tag byte removed, and coordinates exactly equal to the field prime
+        let one = math::U::from_u64(1);
+        for sc in [one, math::U::from_u64(2), cv.n.sub(&one).0, cv.n.sub(&math::U::from_u64(2)).0] {
+            if let Some(p) = refhpke::pk_of(kem, &sc.to_be(nsk)) {
+                push(p, kind);
+            }
+        }
+        push(pk[1..].to_vec(), kind);
+        for (off, bit) in [(1usize, 0x80u8), (1, 0x02), (1 + fl, 0x80), (1 + fl, 0x04)] {
+            // a valid key with a bit set in the leading byte of a coordinate (for P-521 these bits are
+            // outside the field: the value is >= p and must be rejected, never masked away)
+            let mut v = pk.clone();
+            if v[off] & bit == 0 {
+                v[off] |= bit;
+                push(v, kind);
+            }
+        }
+        let pb = cv.p.to_be(fl);
+        let mut v = vec![4u8];
+        v.extend_from_slice(&pb);
+        v.extend_from_slice(&pk[1 + fl..]);
+        push(v, kind); // x = p
+        let mut v = vec![4u8];
+        v.extend_from_slice(&pk[1..1 + fl]);
+        v.extend_from_slice(&pb);
+        push(v, kind); // y = p
+        let mut v = vec![4u8];
+        v.extend_from_slice(&pb);
+        v.extend_from_slice(&pb);
+        push(v, kind); // both
+    }
     match section {
         0 => {
             // all 256 leading tag bytes at full length; compressed / compact at natural length
@@ -1864,6 +2010,14 @@ pub fn gen_c10(rng: &mut Prng, run: u64, _t: &Tier) -> Vec<Ev> {
         _ => {
             // negatives: random strings and bit-flipped honest keys are never rejected
             let mut pkx = if rng.chance(1, 2) { rng.rand_bytes(32) } else { let mut v = small[enc_i].clone(); let bit = rng.range(8, 250); v[bit / 8] ^= 1 << (bit % 8); v };
+            if rng.chance(1, 4) {
+                // a small-order value read in the wrong byte order (u = 2^248 for "1", ...)
+                let mut v = small[enc_i].clone();
+                v.reverse();
+                if !small.contains(&v) && !small.contains(&math::x25519_canon(&v)) {
+                    pkx = v;
+                }
+            }
             if rng.chance(1, 3) {
                 // "reject list" entries written without masking bit 255: most are ordinary points
                 let al = math::x25519_unmasked_aliases();
@@ -1998,6 +2152,11 @@ pub fn framed_variants(val: &[u8]) -> Vec<Vec<u8>> {
     out.push(pre(&[(n >> 8) as u8, n as u8]));
     out.push(pre(&[n as u8]));
     out.push(pre(&[0, 0, (n >> 8) as u8, n as u8]));
+    // the encoding with its own first byte(s) removed (a SEC1 point without its 0x04, ...)
+    if n > 2 {
+        out.push(val[1..].to_vec());
+        out.push(val[2..].to_vec());
+    }
     // suffixes
     for suf in [&[0x00u8][..], &[0x0a], &[0x0d, 0x0a], &[0x00, 0x00]] {
         let mut v = val.to_vec();
@@ -2173,6 +2332,19 @@ pub fn gen_c13(rng: &mut Prng, run: u64, t: &Tier) -> Vec<Ev> {
             ev.push(Ev::DecodeProbe { suite, kind, bytes: b(v) });
         }
     }
+    if kem.is_nist() {
+        // coordinates exactly equal to the field prime, all-ones coordinates, the tag byte removed
+        let cv = math::curve(kem);
+        let pb = cv.p.to_be(cv.flen);
+        let (_, pkv, _) = refhpke::derive_keypair(kem, &rng.rand_bytes(16));
+        for (xs, ys) in [(pb.clone(), pkv[1 + cv.flen..].to_vec()), (pkv[1..1 + cv.flen].to_vec(), pb.clone()), (pb.clone(), pb.clone()), (vec![0xffu8; cv.flen], vec![0xffu8; cv.flen])] {
+            let mut v = vec![4u8];
+            v.extend_from_slice(&xs);
+            v.extend_from_slice(&ys);
+            ev.push(Ev::DecodeProbe { suite, kind: if rng.chance(1, 2) { Kind::Pk } else { Kind::Enc }, bytes: b(v) });
+        }
+        ev.push(Ev::DecodeProbe { suite, kind: Kind::Pk, bytes: b(pkv[1..].to_vec()) });
+    }
     // receiver setup on hostile but decodable encapsulated keys
     let enc_src = if kem == KemId::X25519 { EncSrc::Raw(b(rng.bytes(32))) } else { EncSrc::OfFlip(0, rng.below(8) as usize) };
     ev.push(Ev::SetupR { c: 1, cfg: cfg.clone(), kr: 0, ks: if mode.has_auth() { Some(1) } else { None }, enc: enc_src, model_only: false });
@@ -2329,6 +2501,14 @@ pub fn gen_c14(rng: &mut Prng, run: u64, _t: &Tier) -> Vec<Ev> {
         for api in [OpenApi::SingleShot, OpenApi::SingleShotInPlace, OpenApi::Alloc] {
             ev.push(Ev::Deliver { r: 0, from: 0, rec: RecRef::Index(0), fault: fault.clone(), api });
             ev.push(Ev::Jump { c: 0, role: Role::R, to: 0 });
+        }
+    }
+    if !suite.aead.seals() {
+        // export-only contexts: the allocating and the in-place open behave alike on any input (both
+        // panic, whatever the length: shorter than a tag, exactly a tag, longer)
+        for l in [0usize, 1, 15, 16, 17, 40] {
+            ev.push(Ev::RawOpen { r: 0, ct: b(rng.bytes(l)), aad: b(rng.var_bytes(8)), tag: None });
+            ev.push(Ev::RawOpen { r: 0, ct: b(rng.bytes(l)), aad: b(rng.var_bytes(8)), tag: Some(b(vec![])) });
         }
     }
     if suite.aead.seals() && rng.chance(1, 4) {
